@@ -254,6 +254,8 @@ fn lit_ok(c: char, ctx: Ctx) -> bool {
     match c {
         'a'..='z' | 'A'..='Z' | ':' | '*' | '\u{a0}' | '/' | '.' | ',' | '%' | '+' | '-' | '_' | '?' | '0'..='9' => true,
         ' ' => ctx != Ctx::Top,
+        // bracket expressions in the pattern of a trim (always lexed in word context inside `${…}`)
+        '[' | ']' | '!' | '^' | '=' => ctx == Ctx::BraceW,
         '\'' => matches!(ctx, Ctx::Dq | Ctx::BraceT | Ctx::Here),
         '"' => ctx == Ctx::Here,
         _ => false,
@@ -511,6 +513,8 @@ struct ShState {
     portable: bool,
     /// variables every function call of a `fn` history declares local (`typeset`), with a scalar value or none
     locals: Vec<(String, Option<String>)>,
+    /// `read -d c`: the logical line delimiter (one single-byte character)
+    delim: Option<char>,
 }
 
 fn parse_list(v: &str) -> Option<Vec<String>> {
@@ -529,6 +533,7 @@ fn parse_state(toks: &[&str]) -> Option<ShState> {
             "st" => st.status = v.parse().ok()?,
             "raw" => st.raw = v == "1",
             "n" => st.n = v.parse().ok()?,
+            "d" => st.delim = Some(one_char(v).filter(|c| c.is_ascii() && *c != '\0')?),
             "pos" => st.pos = parse_list(v)?,
             "fl" => st.flags = v.to_string(),
             "pid" => st.pid = Some(v.parse().ok()?),
@@ -618,6 +623,34 @@ fn show_fields(fs: &[String]) -> String {
     )
 }
 
+/// the initial expansion as attributed fields: `<code point hex><l|h|s><0..3>` per character (origin; bit 0 =
+/// quoted, bit 1 = quoting) joined by `_`, fields by `,` (`-` = empty field, `.` = no field)
+fn show_attr(fs: &[Vec<AttrChar>]) -> String {
+    if fs.is_empty() {
+        return ".".into();
+    }
+    fs.iter()
+        .map(|f| {
+            if f.is_empty() {
+                "-".to_string()
+            } else {
+                f.iter()
+                    .map(|c| {
+                        let o = match c.origin {
+                            Origin::Literal => 'l',
+                            Origin::HardExpansion => 'h',
+                            Origin::SoftExpansion => 's',
+                        };
+                        format!("{:x}{}{}", c.value as u32, o, (c.is_quoted as u8) + 2 * (c.is_quoting as u8))
+                    })
+                    .collect::<Vec<_>>()
+                    .join("_")
+            }
+        })
+        .collect::<Vec<_>>()
+        .join(",")
+}
+
 fn vacancy_name(v: Vacancy) -> &'static str {
     match v {
         Vacancy::Unset => "unset",
@@ -694,6 +727,8 @@ struct Direct {
     expect: Option<Result<Vec<String>, String>>,
     /// `fn` histories: expected fields of the steps completed
     steps: Vec<Vec<String>>,
+    /// the attributed initial expansion of every word expanded so far (observation `a=`), `!` after an error
+    attrs: Vec<String>,
 }
 
 fn config(script: String, st: &ShState) -> Config {
@@ -885,11 +920,13 @@ fn run_w(state_toks: &[&str], word_text: &str) -> (String, String) {
                     }
                     Some(Err(e)) => {
                         d.expect = Some(Err(error_class(&e)));
+                        d.attrs.push("!".into());
                         return;
                     }
                     Some(Ok(phrase)) => {
                         // direct API legs on the phrase: denotation equality, emptiness, iteration both ways
                         let fs: Vec<Vec<AttrChar>> = phrase.clone().into_iter().collect();
+                        d.attrs.push(show_attr(&fs));
                         let mut back: Vec<Vec<AttrChar>> = phrase.clone().into_iter().rev().collect();
                         back.reverse();
                         let hint = phrase.clone().into_iter().size_hint();
@@ -970,7 +1007,7 @@ fn run_w(state_toks: &[&str], word_text: &str) -> (String, String) {
             oracle.push(format!("history:expected:{:?}", d.steps).replace([' ', '\t'], "_"));
         }
         let oracle = if oracle.is_empty() { "ok".to_string() } else { format!("FAIL:{}", oracle.join(";")) };
-        return (format!("{} v={vars}", parts.join(" | ")), oracle);
+        return (format!("{} a={} v={vars}", parts.join(" | "), d.attrs.join("/")), oracle);
     }
     let observed: Result<Vec<String>, ()> = if failed {
         Err(())
@@ -1019,7 +1056,7 @@ fn run_w(state_toks: &[&str], word_text: &str) -> (String, String) {
         }
     };
     let oracle = if oracle.is_empty() { "ok".to_string() } else { format!("FAIL:{}", oracle.join(";")) };
-    (format!("{obs} v={vars}"), oracle)
+    (format!("{obs} a={} v={vars}", d.attrs.join("/")), oracle)
 }
 
 /// `P [portable=1] | <hex of what follows "${">` : the real lexer on `probe ${<src>`
@@ -1056,13 +1093,13 @@ fn run_p(state_toks: &[&str], hex: &str) -> (String, String) {
 }
 
 /// `read`'s input processing and XCU `read` assignment, for the oracle
-fn oracle_read(input: &str, raw: bool, ifs: &Ifs, n: usize) -> (bool, Vec<String>) {
+fn oracle_read(input: &str, raw: bool, delim: char, ifs: &Ifs, n: usize) -> (bool, Vec<String>) {
     let plain = |value: char, q: bool, qq: bool| AttrChar { value, origin: Origin::SoftExpansion, is_quoted: q, is_quoting: qq };
     let mut text = vec![];
     let mut found = false;
     let mut it = input.chars();
     while let Some(c) = it.next() {
-        if c == '\n' {
+        if c == delim {
             found = true;
             break;
         }
@@ -1120,10 +1157,18 @@ fn run_r(state_toks: &[&str], input_hex: &str) -> (String, String) {
         return ("bad-case".into(), "-".into());
     }
     let names: Vec<String> = (1..=st.n).map(|k| format!("v{k}")).collect();
-    let script = format!("read {}{}\n", if st.raw { "-r " } else { "" }, names.join(" "));
+    let delim = st.delim.unwrap_or('\n');
+    // the delimiter as a single-quoted (or, for a single quote, backslashed) argument of `-d`
+    let dopt = match st.delim {
+        None => String::new(),
+        Some('\'') => "-d \\' ".to_string(),
+        Some(c) => format!("-d '{c}' "),
+    };
+    let script = format!("read {}{}{}\n", if st.raw { "-r " } else { "" }, dopt, names.join(" "));
     let st2 = st.clone();
     let input2 = input.clone();
     let names2 = names.clone();
+    let raw2 = st.raw;
     let (outcome, res) = run_with(
         config(script, &st),
         move |env, state| {
@@ -1142,14 +1187,23 @@ fn run_r(state_toks: &[&str], input_hex: &str) -> (String, String) {
                 })
                 .collect();
             let ifs = env.variables.get_scalar(IFS).map(|s| s.to_string());
-            (vals, ifs)
+            // the logical line as the real `input::read` returns it: rewind the standard input and read again
+            use yash_env::system::Seek as _;
+            let _ = env.system.lseek(yash_env::io::Fd::STDIN, std::io::SeekFrom::Start(0));
+            let line = yash_builtin::read::input::read(env, delim as u8, raw2).now_or_never();
+            (vals, ifs, line)
         },
     );
     if outcome.stuck {
         return ("TIMEOUT".into(), "FAIL:stuck".into());
     }
-    let Some((vals, ifs_text)) = res else {
+    let Some((vals, ifs_text, line)) = res else {
         return ("no-result".into(), "FAIL:no-result".into());
+    };
+    let (line_attr, line_found) = match line {
+        Some(Ok((cs, found))) => (show_attr(&[cs]), Some(found)),
+        Some(Err(_)) => ("err".to_string(), None),
+        None => ("pending".to_string(), None),
     };
     let show = |st: i32, vals: &[Option<String>]| {
         format!(
@@ -1163,9 +1217,9 @@ fn run_r(state_toks: &[&str], input_hex: &str) -> (String, String) {
                 .join(",")
         )
     };
-    let obs = show(outcome.exit_status, &vals);
+    let obs = format!("{} a={}", show(outcome.exit_status, &vals), line_attr);
     let ifs = ifs_text.as_deref().map(Ifs::new).unwrap_or_default();
-    let (found, exp) = oracle_read(&input, st.raw, &ifs, st.n);
+    let (found, exp) = oracle_read(&input, st.raw, delim, &ifs, st.n);
     // a read-only target keeps its value and makes the exit status 2
     let ro_value = |n: &String| -> Option<Option<String>> {
         st.vars.iter().find(|(m, ro, _)| m == n && *ro).map(|(_, _, v)| match v {
@@ -1177,7 +1231,13 @@ fn run_r(state_toks: &[&str], input_hex: &str) -> (String, String) {
     let exp: Vec<Option<String>> =
         names.iter().zip(exp).map(|(n, v)| ro_value(n).unwrap_or(Some(v))).collect();
     let expected = show(if any_ro { 2 } else if found { 0 } else { 1 }, &exp);
-    let oracle = if expected == obs { "ok".to_string() } else { format!("FAIL:read:expected:{}", expected.replace(' ', "_")) };
+    let oracle = if line_found != Some(found) {
+        format!("FAIL:read:delimiter-found:{line_found:?}")
+    } else if obs.starts_with(&format!("{expected} a=")) {
+        "ok".to_string()
+    } else {
+        format!("FAIL:read:expected:{}", expected.replace(' ', "_"))
+    };
     (obs, oracle)
 }
 
@@ -1275,6 +1335,70 @@ fn patterns() -> Vec<Vec<WU>> {
     ]
 }
 
+fn lits(s: &str) -> Vec<WU> {
+    s.chars().map(lit).collect()
+}
+
+/// patterns with bracket expressions (the yash-fnmatch model of C04 composed into this model): sets, ranges,
+/// complements, classes, collating / equivalence symbols, `]` and `-` in special positions, unclosed brackets,
+/// quoting inside brackets, expansions inside brackets, and patterns outside the defined notation (inverted
+/// range, undefined class, class as range bound, empty symbol, multi-character collating element)
+fn bracket_patterns() -> Vec<Vec<WU>> {
+    let mut v: Vec<Vec<WU>> = [
+        "[ab]", "[a-b]*", "*[!a]", "[^a]*", "[: ]*", "*[: ]", "?[:b]", "[!:]*", "*[!b ]", "[[:alpha:]]", "[[:alpha:]]*",
+        "*[[:space:]]", "[[:space:]]*", "[[:punct:]]*", "*[![:alpha:]]", "[]a]*", "[a", "*[", "[a-]*", "[-a]", "[!]a]*", "[]",
+        "[]]", "[[.a.]]*", "[[=a=]]*", "[[.-.]a]*", "[[.space.]]*", "[z-a]*", "[[:foo:]]*", "[[:alpha:]-z]", "[[..]]",
+        "[[.ab.]b]*", "*[[.ab.]b]", "[a[.ab.]]*", "[a-b][: ]*", "[!a-b]?", "[a-a]", "*[a-b:]",
+    ]
+    .iter()
+    .map(|s| lits(s))
+    .collect();
+    // quoting inside a bracket expression: a quoted character is always a plain member
+    v.push(vec![lit('['), WU::Unq(TU::Bs('!')), lit('a'), lit(']'), lit('*')]);
+    v.push(vec![lit('['), lit('a'), WU::Unq(TU::Bs('-')), lit('c'), lit(']')]);
+    v.push(vec![lit('['), WU::Sq("a".into()), lit('-'), lit('b'), lit(']'), lit('*')]);
+    v.push(vec![lit('['), WU::Dq(vec![TU::Lit(']')]), lit('a'), lit(']'), lit('*')]);
+    v.push(vec![WU::Unq(TU::Bs('[')), lit('a'), lit(']')]);
+    v.push(vec![WU::Sq("[".into()), lit('a'), lit(']'), lit('*')]);
+    v.push(vec![lit('['), WU::Sq("a-b".into()), lit(']'), lit('*')]);
+    // expansions inside the pattern: the value's characters are pattern characters (unquoted) or literals (quoted)
+    v.push(vec![lit('['), WU::Unq(raw("y")), lit(']'), lit('*')]);
+    v.push(vec![lit('['), WU::Dq(vec![raw("y")]), lit(']'), lit('*')]);
+    v.push(vec![lit('['), lit('!'), WU::Unq(raw("y")), lit(']')]);
+    v.push(vec![WU::Unq(raw("y")), lit('['), lit('a'), lit('b'), lit(']')]);
+    v.push(vec![lit('['), WU::Unq(raw("@")), lit(']'), lit('*')]);
+    v.push(vec![lit('['), WU::Dq(vec![raw("*")]), lit(']'), lit('*')]);
+    v
+}
+
+/// a random pattern: a bracket expression over the characters of the states' values, with `*` / `?` around it
+fn random_pattern(r: &mut Rng) -> Vec<WU> {
+    let mut s = String::new();
+    if r.chance(1, 4) {
+        s.push(*r.pick(&['*', '?', 'a', ':']));
+    }
+    s.push('[');
+    if r.chance(1, 3) {
+        s.push(*r.pick(&['!', '^']));
+    }
+    for _ in 0..1 + r.below(3) {
+        match r.below(8) {
+            0 => s.push_str(r.pick(&["a-b", "a-c", "b-a", "0-9", " -:", "a-"])),
+            1 => s.push_str(r.pick(&["[:alpha:]", "[:space:]", "[:punct:]", "[:digit:]", "[:blank:]", "[:x:]"])),
+            2 => s.push_str(r.pick(&["[.a.]", "[=b=]", "[.-.]", "[.ab.]", "[.:.]"])),
+            3 => s.push(']'),
+            _ => s.push(*r.pick(&['a', 'b', ':', ' ', '-', '*', '?'])),
+        }
+    }
+    if !r.chance(1, 8) {
+        s.push(']');
+    }
+    if r.chance(1, 2) {
+        s.push(*r.pick(&['*', '?', 'b', ' ']));
+    }
+    lits(&s)
+}
+
 /// text units usable inside double quotes
 fn dq_units(full: bool) -> Vec<TU> {
     let mut v = vec![TU::Lit('a'), TU::Lit(' '), TU::Lit(':'), TU::Lit('*'), TU::Lit('\''), TU::Bs('\\'), TU::Bs('"'), TU::Bs('$')];
@@ -1316,6 +1440,10 @@ fn dq_units(full: bool) -> Vec<TU> {
             for w in patterns() {
                 v.push(braced("x", Mo::Tr { side, long, w: w.clone() }));
                 v.push(braced("@", Mo::Tr { side, long, w }));
+            }
+            for w in bracket_patterns() {
+                v.push(braced("x", Mo::Tr { side, long, w: w.clone() }));
+                v.push(braced("*", Mo::Tr { side, long, w }));
             }
         }
     }
@@ -1381,6 +1509,11 @@ fn top_units(full: bool) -> Vec<WU> {
         if full {
             for w in patterns() {
                 for p in ["x", "@", "u", "y", "*", "#", "1", "?", "10"] {
+                    v.push(WU::Unq(braced(p, Mo::Tr { side, long, w: w.clone() })));
+                }
+            }
+            for w in bracket_patterns() {
+                for p in ["x", "@", "y", "1", "10"] {
                     v.push(WU::Unq(braced(p, Mo::Tr { side, long, w: w.clone() })));
                 }
             }
@@ -1659,7 +1792,12 @@ fn random_tu(r: &mut Rng, ctx: Ctx, depth: usize) -> TU {
                     }
                     6 | 7 if depth > 0 => {
                         let (side, long) = *r.pick(&TRIMS);
-                        Mo::Tr { side, long, w: random_word(r, Ctx::BraceW, 0, 3) }
+                        let w = match r.below(4) {
+                            0 => r.pick(&bracket_patterns()).clone(),
+                            1 => random_pattern(r),
+                            _ => random_word(r, Ctx::BraceW, 0, 3),
+                        };
+                        Mo::Tr { side, long, w }
                     }
                     _ => Mo::None,
                 };
@@ -1873,7 +2011,9 @@ fn main() {
             let n = 1 + rng.below(3);
             let raw = rng.chance(1, 3) as u8;
             let ro = if rng.chance(1, 8) { *rng.pick(&["!v1=s71 ", "!v2=U ", "!v1=U "]) } else { "" };
-            out(format!("R {ro}{ifs} raw={raw} n={n} | {}", enc_str(&format!("{l}\n"))).replace("R  ", "R "));
+            // `-d`: a delimiter other than newline (also the backslash itself, a separator, a field character)
+            let d = if rng.chance(1, 5) { *rng.pick(&[" d=3a", " d=61", " d=5c", " d=20", " d=09", " d=27"]) } else { "" };
+            out(format!("R {ro}{ifs} raw={raw} n={n}{d} | {}", enc_str(&format!("{l}\n"))).replace("R  ", "R "));
         }
     }
     let n5 = if thorough { 200_000 } else { 5_000 };
@@ -1886,6 +2026,7 @@ fn main() {
         let ifs = *rng.pick(&["", "IFS=s3a", "IFS=s203a", "IFS=s-", "IFS=U", "IFS=s61", "IFS=sc2a0", "IFS=s3a20"]);
         let n = 1 + rng.below(4);
         let raw = rng.chance(1, 3) as u8;
-        out(format!("R {ifs} raw={raw} n={n} | {}", enc_str(&l)).replace("R  ", "R "));
+        let d = if rng.chance(1, 5) { *rng.pick(&[" d=3a", " d=62", " d=5c", " d=20"]) } else { "" };
+        out(format!("R {ifs} raw={raw} n={n}{d} | {}", enc_str(&l)).replace("R  ", "R "));
     }
 }
